@@ -980,6 +980,11 @@ def r99(ctx: Ctx) -> RuleReport:
                 rep.violation(key, fi.loc(a), f'`{t}` may be None here')
             else:
                 rep.ok(key, fi.loc(a))
+        elif isinstance(v, ast.Call) and isinstance(v.func, ast.Attribute) and v.func.attr in ('lstrip', 'strip', 'replace') and isinstance(v.func.value, ast.Attribute) \
+                and v.func.value.attr == 'text' and v.args and try_fold(v.args[0]) == (True, ','):
+            kinds.add('glued')
+            rep.violation(key, fi.loc(a), f'`{norm(v)}` removes every leading comma (or every comma), not the one separator: role(a ,,b) gives the target "b" although the fused spelling '
+                          f'role(a,,b) gives ",b" - the spacing variants no longer parse to the same triples')
         else:
             rep.undecided(key, fi.loc(a), vs[:50])
     for want, what in (('fused', 'role(a,b)'), ('next-token', 'role(a, b) / role(a , b)'), ('glued', 'role(a ,b)')):
